@@ -62,7 +62,7 @@ func plainProcess(in io.Reader) (string, error, string) {
 				panicked = fmt.Sprint(e)
 			}
 		}()
-		err = process(in, &buf, &Palette{}, stack.AnyPointer, basePath, false, false, "", nil, nil)
+		err = processFn(in, &buf, renderCfg{pf: styleBase, level: stack.AnyPointer}, false)
 	}()
 	return buf.String(), err, panicked
 }
@@ -223,7 +223,7 @@ func TestVerifC03CLI(t *testing.T) {
 		}
 		key := fmt.Sprintf("cli %s seed%d %s", kind, seed, h.Hash(string(input)))
 		v := r.Check(func() *h.Viol {
-			for _, cfg := range []renderCfg{{pf: basePath, level: stack.AnyPointer}, {pf: fullPath, level: stack.AnyValue, colour: true, rebase: true}} {
+			for _, cfg := range []renderCfg{{pf: styleBase, level: stack.AnyPointer}, {pf: styleFull, level: stack.AnyValue, colour: true, rebase: true}} {
 				_, _, p := runProcess(input, cfg)
 				if p != "" {
 					v := &h.Viol{Fingerprint: "C03/cli/panic:" + strings.SplitN(p, "\n", 2)[0], Summary: "process() panicked: " + strings.SplitN(p, "\n", 2)[0], Key: key, Kind: "cli"}
@@ -407,6 +407,11 @@ func TestVerifC11Process(t *testing.T) {
 		t.Logf("replay %s: %s", rv.Key, rv.Summary)
 		return
 	}
+	if !processInProcess {
+		r.Note("process() is not bound in this tree: the in-process monitor is skipped (the pipe scenarios on the pp binary still run)")
+		r.Record("process-monitor skipped", true, "skipped")
+		return
+	}
 	names, streams := c11ProcessStreams()
 	cache := map[string]string{}
 	seq := 0
@@ -516,7 +521,7 @@ func TestVerifC11Process(t *testing.T) {
 							pn = fmt.Sprint(e)
 						}
 					}()
-					_ = process(hr, &out, &Palette{}, stack.AnyPointer, basePath, false, false, "", nil, nil)
+					_ = processFn(hr, &out, renderCfg{pf: styleBase, level: stack.AnyPointer}, false)
 				}()
 				if pn != "" {
 					cat, msg = "panic", pn
